@@ -38,9 +38,102 @@ func init() {
 			for i := 0; i < 6; i++ {
 				ids = append(ids, fmt.Sprintf("%064x", i+1))
 			}
+			// requests through the REAL handlers, also split in two: the id test at the top, then (held in a Lightning
+			// call by the harness) anything else, then the rest of the handler
+			ctxOf := map[string]*Ctx{}
+			// outcome of a request, from what the node did: registered under this channel / cancel with which reason
+			activeScid := func(id string) string {
+				if v, ok := w.svc.VerifActiveSwaps()[id]; ok {
+					if v[1] == "" {
+						return "?"
+					}
+					return v[1]
+				}
+				return ""
+			}
+			reqClass := func(id, scid, scidBefore string, sentBefore int) string {
+				if now := activeScid(id); now == scid && scidBefore != scid {
+					return "accepted"
+				}
+				for _, m := range w.msgr.sent[sentBefore:] {
+					if m.typ == messages.MESSAGETYPE_CANCELED && strings.Contains(string(m.payload), id) && strings.Contains(string(m.payload), "already has an active swap") {
+						return "cancelBusy"
+					}
+				}
+				return "refusedKnownId"
+			}
+			// requests carry well-formed channel ids only (a malformed one is refused by the pre-checks, before the registry)
+			reqScids := []string{"100x1x0", "100:1:0", "200x2x1", "200:2:1", "300x3x2", "1x2x3", "1:2:3"}
+			var inflight chan string
+			var inflightCtx *Ctx
+			var inflightScid string
+			var gate chan bool
 			for k := 0; k < 10+r.intn(30) && done < n; k++ {
 				done++
 				id := ids[r.intn(len(ids))]
+				switch c := r.intn(12); {
+				case c >= 6 && c <= 7: // a whole request
+					scid := r.pickStr(reqScids)
+					cx := newCtx(w)
+					before, sb := activeScid(id), len(w.msgr.sent)
+					cx.Step("new inReceiver btc scid=" + scid + " id=" + id)
+					cls := reqClass(id, scid, before, sb)
+					if cls == "accepted" {
+						ctxOf[id] = cx
+					}
+					emit(fmt.Sprintf("reg.request %s %s", id, hexs(scid)), cls)
+					continue
+				case c == 8: // the peer cancels a requested swap: it finishes and leaves the active map
+					cx := ctxOf[id]
+					if cx == nil {
+						done--
+						continue
+					}
+					cx.Step("cancel")
+					delete(ctxOf, id)
+					emit("reg.remove "+id, "ok")
+					continue
+				case c == 9 && inflight == nil: // first half of a request
+					scid := r.pickStr(reqScids)
+					cx := newCtx(w)
+					reached := make(chan bool, 1)
+					gate = make(chan bool)
+					var first int32
+					g := gate
+					hook := func() {
+						if atomic.CompareAndSwapInt32(&first, 0, 1) {
+							reached <- true
+							<-g
+						}
+					}
+					w.setHook("canspend", hook)
+					ch := make(chan string, 1)
+					go func() { ch <- cx.Step("new inReceiver btc scid=" + scid + " id=" + id) }()
+					select {
+					case <-reached:
+						inflight, inflightCtx, inflightScid = ch, cx, scid
+						emit(fmt.Sprintf("reg.reqbegin %s %s", id, hexs(scid)), "pending")
+					case <-ch:
+						w.setHook("canspend", nil)
+						emit(fmt.Sprintf("reg.reqbegin %s %s", id, hexs(scid)), "refusedKnownId")
+					}
+					continue
+				case c == 10 && inflight != nil: // second half
+					before, sb := activeScid(inflightCtx.id), len(w.msgr.sent)
+					close(gate)
+					<-inflight
+					w.setHook("canspend", nil)
+					cls := reqClass(inflightCtx.id, inflightScid, before, sb)
+					if cls == "accepted" {
+						ctxOf[inflightCtx.id] = inflightCtx
+					}
+					inflight = nil
+					emit("reg.reqend", cls)
+					continue
+				case c >= 9:
+					done--
+					continue
+				}
 				switch r.intn(6) {
 				case 5:
 					scid := r.pickStr(scidSpellings)
@@ -66,6 +159,10 @@ func init() {
 					sort.Strings(xs)
 					emit("reg.active", strings.Join(xs, " "))
 				}
+			}
+			if inflight != nil {
+				close(gate)
+				<-inflight
 			}
 			w.close()
 		}
